@@ -130,6 +130,26 @@ pub fn baseline_path(project_root: &Path) -> PathBuf {
     project_root.join(BASELINE_FILENAME)
 }
 
+/// True for the directory entries the tool itself creates inside a project: the fallback state
+/// directory, the default baseline file, and the temporary file an interrupted save leaves next
+/// to it. They are not part of the project: counting them would make a run change the file and
+/// directory counts the next run measures.
+#[must_use]
+pub fn is_own_state_entry(file_name: &std::ffi::OsStr, is_dir: bool) -> bool {
+    let Some(name) = file_name.to_str() else {
+        return false;
+    };
+    if is_dir {
+        return name == FALLBACK_STATE_DIR;
+    }
+    name == BASELINE_FILENAME
+        || name
+            .strip_prefix('.')
+            .and_then(|rest| rest.strip_prefix(BASELINE_FILENAME))
+            .and_then(|rest| rest.strip_prefix(".tmp."))
+            .is_some_and(|pid| !pid.is_empty() && pid.bytes().all(|b| b.is_ascii_digit()))
+}
+
 // =============================================================================
 // File Locking Utilities
 // =============================================================================
